@@ -11,6 +11,86 @@ ALL = [f"C{n:02d}" for n in range(1, 21)]
 
 # id -> (category, technique, level text, level note, design ref)
 CHECKS = {
+    "C03": (
+        "exploration",
+        "property-based testing (Hypothesis): differential against a reference 'apply AGP to FASTA' (API with injected reference index; CLI end to end)",
+        "FastaStream output for arbitrary assemblies over generated FASTA files (sub-intervals starting mid-line, three strands, "
+        "gaps of 0..5 buffers, buffers 1..10^6, six line lengths) must be byte-identical to a 20-line reference; end to end every "
+        "written .fa must equal its sibling .agp applied to the input FASTA, with unique record names and equal lengths.",
+        "Trusted: vf/ref.py read_fasta / apply_agp_to_fasta / hand-typed complement table; '?' rows are written forward (AGP spec).",
+        "DESIGN.md section 5 / C03",
+    ),
+    "C04": (
+        "exploration",
+        "property-based testing (Hypothesis): differential against a reference faidx reader, all-interval random access, run-length reference",
+        "Generated well-formed FASTA bytes (LF/CRLF, widths 1-80, with/without final newline, N/IUPAC/odd-symbol runs at line and "
+        "buffer boundaries, empty records) x buffer sizes: index quintuples, random access for all (short) or drawn + boundary "
+        "intervals, derived assembly, stream-back and .fai text against the reference; duplicate names and record-less files must raise.",
+        "Trusted: vf/ref.py read_fasta / acgt_runs. The per-line pair is not compared for records without a terminated sequence line.",
+        "DESIGN.md section 5 / C04",
+    ),
+    "C05": (
+        "exploration",
+        "property-based testing (Hypothesis): round-trip oracles (parse o format, format o parse, AGP->TPF->AGP via CLI) and a one-row-per-line differential on corrupted text",
+        "Generated assemblies with awkward names (':', '-', spaces, digits only, 'x:1-2'), coordinates to 10^12, three strands, tags, all "
+        "AGP gap types and header lines are round-tripped through both formats and through asm-format; corrupted canonical text must "
+        "raise or yield exactly one row per data line in the scaffold the line names.",
+        "Trusted: plain-data comparison (not the code's __eq__); the domain excludes what the line grammars cannot carry (stated in evidence).",
+        "DESIGN.md section 5 / C05",
+    ),
+    "C06": (
+        "exploration",
+        "property-based testing (Hypothesis): independent AGP validator over AGP text from format_agp, the remapper, the CLIs and the FASTA cache",
+        "Every AGP text produced for generated assemblies, for every assembly returned by remapping model and perturbed maps, by "
+        "pretext-to-asm (incl. the companion of FASTA output, checked against the FASTA records, with small stream buffers) and as the "
+        ".agp cache is validated for tiling, part numbers, span arithmetic, gap columns and total lengths.",
+        "Trusted: vf/ref.py agp_validate. Assemblies with two scaffolds of one name are validated scaffold by scaffold.",
+        "DESIGN.md section 5 / C06",
+    ),
+    "C13": (
+        "exploration",
+        "property-based testing (Hypothesis) differential across buffer sizes with chunk/read/write monitors + allocation-peak measurement on generated large configurations",
+        "Index and stream results must be identical for every buffer size (1, 2, primes, width+-1, fragment length+-1) and equal the "
+        "reference; monitors bound every chunk, every span requested, every file read and every write by the buffer size; "
+        "tracemalloc peaks while indexing/streaming 2-4 MB sequences, fragments and gaps at B=1000/4096/10000 must stay below 8B+64KiB.",
+        "Trusted: tracemalloc as the measure of memory held; the bound's margins are stated in evidence assumptions.",
+        "DESIGN.md section 5 / C13",
+    ),
+    "C14": (
+        "exploration",
+        "property-based testing (Hypothesis) of involution / commutation laws + exhaustive 256-byte table check",
+        "Complement table checked on all 256 byte values against a hand-typed IUPAC table; reverse_complement twice = identity on "
+        "arbitrary byte strings; Scaffold.reverse laws on scaffolds with +,-,unknown strands, tags and gaps; stream(reverse(s)) = "
+        "reference reverse complement of stream(s) over generated FASTA and buffer sizes; OverlapResult.to_scaffold with a minus bait.",
+        "Trusted: vf/ref.py COMPLEMENT (30 letters) and revcomp. Streaming law stated for oriented rows only.",
+        "DESIGN.md section 5 / C14",
+    ),
+    "C18": (
+        "exploration",
+        "property-based testing (Hypothesis) over operation sequences with an independent invariant checker after every step + exhaustive small scope",
+        "Overlap results from the real lookup are driven through generated sequences of discard/trim operations; after every step an "
+        "independent checker recomputes span, row provenance (identity with source rows, strand-aware terminal shortening) and all "
+        "derived figures from the source layout. All scaffolds of <=2/3 rows x all baits x all sequences of <=3 of 9 operations are enumerated.",
+        "Trusted: the checker in vf/props/c18.py; contig names unique within a scaffold.",
+        "DESIGN.md section 5 / C18",
+    ),
+    "C19": (
+        "exploration",
+        "exhaustive enumeration of interval pairs against set arithmetic + property-based testing (Hypothesis) of the scan and the CLI report against a brute-force pair scan",
+        "The four interval predicates are checked on ALL interval pairs in 1..12 (quick) / 1..20 (thorough) x strands x same/different "
+        "names; the all-against-all scan and asm-format --qc-overlaps are compared with a brute-force base-set scan on generated assemblies.",
+        "Trusted: Python range/set arithmetic. Fragments are identified by position.",
+        "DESIGN.md section 5 / C19",
+    ),
+    "C20": (
+        "exploration",
+        "property-based testing (Hypothesis): permutation consistency and metamorphic numeric-order relations + exhaustive small alphabet",
+        "Sorting generated name sets (I/V/X runs, leading zeros, digits at either end) in two permutations must succeed and agree on "
+        "the key sequence; decimal and I..IV numerals compare by value, unlocs sort directly after their chromosome, rank precedes name; "
+        "all 4680 names of length <= 4 over {I,V,X,0,1,2,_,a} are keyed and sorted.",
+        "Trusted: the metamorphic relations are taken from the statement; no reference key function is assumed.",
+        "DESIGN.md section 5 / C20",
+    ),
     "C01": (
         "exploration",
         "property-based testing (Hypothesis) of the remapper against an independent partition oracle, API and CLI level",
